@@ -85,7 +85,7 @@ Lemma ap1_illegal m d (lhs : list R) n_rhs off :
     || illegal_padlen m (Z.of_nat (length lhs) - Z.of_nat n_rhs - off) (Z.of_nat n_rhs) = true ->
   apply_padding1 m d lhs n_rhs off = ValueErr.
 Proof.
-  intros Hlt Hill. unfold apply_padding1, padding_skipped, zlen.
+  intros Hlt Hill. unfold apply_padding1, padding_skipped, zlen. change size_guard_before_skip with false; cbn [andb].
   destruct (Z.leb_spec (Z.of_nat (length lhs)) (Z.of_nat n_rhs)); [lia|].
   unfold n_pad_r, n_pad_l. cbv zeta. unfold n_pad_l. now rewrite Hill.
 Qed.
